@@ -19,6 +19,7 @@ import sys
 import threading
 
 import common
+import whitebox
 import images
 import insp_impl
 from common import req
@@ -240,13 +241,13 @@ def wrap_trace(allowed, data, sizes):
         close_escaped = type(e).__name__
     final = decision()
     matches = {}
-    for i in w._inspectors:
+    for i in whitebox.w_inspectors(w):
         try:
             matches[i.NAME] = bool(i.format_match)
         except Exception as e:
             matches[i.NAME] = 'EXC:' + type(e).__name__
     return {'decisions': decs, 'final': final, 'escaped': escaped, 'close_escaped': close_escaped, 'matches': matches,
-            'names': sorted(i.NAME for i in w._inspectors)}
+            'names': sorted(i.NAME for i in whitebox.w_inspectors(w))}
 
 
 class CountingSource(io.BytesIO):
@@ -382,7 +383,7 @@ def pipe_trace(allowed, expected, data, sizes, faults, iterator=False, via_iter_
     fed_after_finish = []
     prop_reads = []       # (name, property, chunk index, raised?) - reads of a fault-carrying property
     events = {}           # name -> [(chunk index, 'ok' | exception object, complete, match)]
-    for i in w._inspectors:
+    for i in whitebox.w_inspectors(w):
         events[i.NAME] = []
         mine = [f for f in faults if f[0] == i.NAME]
         eatf = {k: kind for (_n, k, kind) in mine if kind.startswith('eat:')}
@@ -426,7 +427,7 @@ def pipe_trace(allowed, expected, data, sizes, faults, iterator=False, via_iter_
             def eat(chunk):
                 k = feeds[0]
                 feeds[0] += 1
-                if i._finished:
+                if whitebox.insp_finished(i):
                     # the wrapper finished this inspector and still feeds it: not a fault of the inspector
                     fed_after_finish.append((i.NAME, cur[0]))
                 if k in eatf:
@@ -486,8 +487,8 @@ def pipe_trace(allowed, expected, data, sizes, faults, iterator=False, via_iter_
             w.close()
     return {'chunks': chunks, 'out': out, 'end': end, 'events': events, 'consumed': consumed,
             'fed_after_finish': fed_after_finish, 'prop_reads': prop_reads,
-            'errored': {i.NAME for i in w._errored_inspectors},
-            'names': sorted(i.NAME for i in w._inspectors), 'finished': w._finished}
+            'errored': {i.NAME for i in whitebox.w_errored(w)},
+            'names': sorted(i.NAME for i in whitebox.w_inspectors(w)), 'finished': whitebox.w_finished(w)}
 
 
 def render_trace(t):
